@@ -163,6 +163,8 @@ pub fn run_bin(r: &BinRun) -> std::io::Result<BinOut> {
         cmd.current_dir(c);
     }
     cmd.stdin(Stdio::piped()).stdout(Stdio::piped()).stderr(Stdio::piped());
+    // own process group: on timeout the launcher AND delta (its child) are killed
+    std::os::unix::process::CommandExt::process_group(&mut cmd, 0);
     let mut child = cmd.spawn()?;
     let mut stdin = child.stdin.take().unwrap();
     let input = r.stdin.clone();
@@ -188,6 +190,9 @@ pub fn run_bin(r: &BinRun) -> std::io::Result<BinOut> {
         }
         if t0.elapsed() > r.timeout {
             timed_out = true;
+            unsafe {
+                libc::kill(-(child.id() as i32), libc::SIGKILL);
+            }
             let _ = child.kill();
             break child.wait()?;
         }
